@@ -3532,16 +3532,24 @@ class StateEngine(object):
 
                 event["data"] = merge_result(data, context, result, state)
             except IntrinsicFailure as e:
+                # Retry and Catch work on the raw input (the event still holds
+                # the output of the branch that reported the last result).
+                event["data"] = data
+                restore_retry_info()
                 handle_error(state, "States.IntrinsicFailure", str(e))
                 # Acknowledge the events for each branch's terminal state
                 self.acknowledge_event_list(event_ids)
                 return
             except ResultPathMatchFailure as e:
+                event["data"] = data
+                restore_retry_info()
                 handle_error(state, "States.ResultPathMatchFailure", str(e))
                 # Acknowledge the events for each branch's terminal state
                 self.acknowledge_event_list(event_ids)
                 return
             except (PathMatchFailure, Exception) as e:
+                event["data"] = data
+                restore_retry_info()
                 handle_error(state, "States.Runtime", str(e))
                 # Acknowledge the events for each branch's terminal state
                 self.acknowledge_event_list(event_ids)
